@@ -171,10 +171,12 @@ def fn_source(n, twin=False, decorate=True):
             args.append("version=%r" % n["explicit"])
         lines.append("@m.memento_function(%s)" % ", ".join(args))
     defname = name.split(".")[-1]
+    # (fs: a default that is a frozenset of strings - its description in the code hash must not depend on the hash seed)
+    fs = "fs=frozenset({'p%d', 'q', 'r', 's'})" % s["kwd"]
     if n.get("fnarg"):
-        lines.append("def %s(a, d=%d, fnarg=None, *, k=%d):" % (defname, s["dflt"], s["kwd"]))
+        lines.append("def %s(a, d=%d, fnarg=None, *, k=%d, %s):" % (defname, s["dflt"], s["kwd"], fs))
     else:
-        lines.append("def %s(a, d=%d, *, k=%d):" % (defname, s["dflt"], s["kwd"]))
+        lines.append("def %s(a, d=%d, *, k=%d, %s):" % (defname, s["dflt"], s["kwd"], fs))
     if n.get("deco") and n["kind"] == "plain" and not n.get("cls") and n.get("where") != "init":
         lines.insert(len(lines) - 1, "@_deco")
     if not twin:
